@@ -117,7 +117,7 @@ class Policy:
     def apply(self, name, n, data, r):
         from mitmproxy import http
         act = r.get("action", "pass")
-        self.applied.append((self.w.loop.time(), name, n, act))
+        self.applied.append((self.w.loop.time(), name, n, act, getattr(data, "id", None)))
         if act == "pass":
             return
         self.w.net.fired("policy_" + act)
@@ -148,11 +148,13 @@ class Policy:
             after = r.get("after", 0.0)
 
             def later():
-                self.applied.append((self.w.loop.time(), name, n, "then_" + then))
+                self.applied.append((self.w.loop.time(), name, n, "then_" + then, getattr(data, "id", None)))
                 if then == "kill":
                     if f.killable:
                         f.kill()
-                    # what the UI does after killing: nothing else.
+                        # what the UI does after killing: nothing else.
+                    else:
+                        f.resume()  # cannot be killed any more (e.g. another rule did already): just let it go
                 elif then == "kill_resume":
                     if f.killable:
                         f.kill()
@@ -550,6 +552,12 @@ def run(sc, *, keep_log=False, monitors=(), extra_addons=(), with_addons=None, s
         for c in obs.clients:
             c.handler_done = c.task.done()
         obs.pending_hooks = [s[1] for s in w.hook_spans if s[3] is None]
+        # census of what each connection handler still holds (must be read before teardown cancels everything)
+        obs.transport_census = [
+            (h.client.peername, [(str(k), io.handler is not None and not io.handler.done(),
+                                  io.writer is not None and not io.writer.is_closing())
+                                 for k, io in h.transports.items()])
+            for h in w.handlers]
         obs.leaked = w.leaked_tasks(ignore=("client playback",))
         obs.sim_s = w.loop.time()
         return obs
